@@ -326,18 +326,26 @@ def eval_tree(case, stats=None):
     return vs
 
 
-BUDGET = {"quick": {"direct": 1200, "e2e": 14}, "thorough": {"direct": 40000, "e2e": 260}}
+BUDGET = {"quick": {"direct": 1200, "e2e": 14, "fuzz": (1, 3000)}, "thorough": {"direct": 40000, "e2e": 260, "fuzz": (8, 150000)}}
+
+# coverage-guided stage: same strategy, same oracle, bytes chosen by libFuzzer (cmv/fuzz.py)
+FUZZ_TARGETS = {"direct": (lambda: direct_case(), lambda c, stats: eval_direct(c, stats))}
 
 
 def shards(tier, seed):
     b = BUDGET[tier]
     out = [{"kind": "e2e", "n": b["e2e"], "seed": seed * 1000 + 50 + i} for i in range(16)]
+    out += [{"kind": "fuzz", "runs": b["fuzz"][1], "seed": seed * 1000 + 900 + i} for i in range(b["fuzz"][0])]
     out += [{"kind": "direct", "n": b["direct"], "seed": seed * 1000 + i} for i in range(16)]
     return out
 
 
 def run_shard(spec):
     stats = core.Stats()
+    if spec["kind"] == "fuzz":
+        from .. import fuzz
+
+        return fuzz.fuzz_shard(__name__, "direct", spec["runs"], spec["seed"])
     if spec["kind"] == "direct":
         core.drive(direct_case(), lambda c: eval_direct(c, stats), spec["n"], spec["seed"])
     else:
